@@ -8,6 +8,8 @@ are projected separately; MasterTrace.tla compares them.
 """
 import json
 import threading
+
+import yaml
 import time as _realtime
 from unittest import mock
 
@@ -467,6 +469,15 @@ class World:
 
     def ev_StaleCrashCycle(self, k):
         self.ev_CrashCycle(k)
+        if not self.crashed and self.master is not None:
+            # the publication completed: run_loop goes on to the integrity check
+            try:
+                self.master.check_placement_integrity()
+            except AssertionError as err:
+                if 'integrity' not in str(err):
+                    raise
+                self.master = None
+                self.died = True
 
     def ev_Kill(self):
         self.master = None
@@ -526,6 +537,9 @@ class World:
             changed = False
             order = list(WATCHED)
             self.rng.shuffle(order)     # watches fire independently: no order between paths
+            if only is None:
+                keys = {z.SCHEDULED: 'scheduled', z.SERVER_PRESENCE: 'presence', z.EVENTS: 'events'}
+                self.order += [keys[p] for p in order if p in keys]
             for path in order:
                 if only is not None and path != only:
                     continue
@@ -541,6 +555,7 @@ class World:
         self.v.step()
         self.died = False
         self.noop = False
+        self.order = []
         if self.master is None and ev in ('Cycle', 'StaleCycle', 'CrashCycle', 'StaleCrashCycle',
                                           'Integrity', 'Kill'):
             self.noop = True        # the master is down (it failed its own check): nothing runs
@@ -592,6 +607,35 @@ class World:
         running = sorted(self.aname(i) for i in self.store.children(z.RUNNING))
         return dict(placement=pl, presence=presence, records=records, scheduled=sched,
                     running=running)
+
+    def project_lag(self):
+        """The abstract state MasterLag.tla talks about."""
+        nodes = self.store.nodes
+        servers = sorted(self.scn['server_init'])
+        pl, rec = {}, {}
+        for s in servers:
+            sp = z.path.placement(s)
+            pl[s] = sorted(self.aname(i) for i in self.store.children(sp)) if sp in nodes else []
+            node = nodes.get(z.path.server(s))
+            if node is None:
+                rec[s] = 'no'
+            else:
+                try:
+                    data = yaml.safe_load(node.data.decode()) if node.data else {}
+                except Exception:   # pylint: disable=broad-except
+                    data = {}
+                rec[s] = 'data' if isinstance(data, dict) and 'memory' in data else 'bare'
+        m = self.master
+        out = dict(pl=pl, rec=rec, pres=sorted(self.store.children(z.SERVER_PRESENCE)),
+                   sched=sorted(self.aname(i) for i in self.store.children(z.SCHEDULED)),
+                   alive=m is not None, srv=[], up=[], apps=[], placed={}, cap={})
+        if m is not None:
+            out['srv'] = sorted(m.servers)
+            out['up'] = sorted(s for s, srv in m.servers.items() if srv.state is scheduler.State.up)
+            out['apps'] = sorted(self.aname(a) for a in m.cell.apps)
+            out['placed'] = {self.aname(a): (app.server or '') for a, app in m.cell.apps.items()}
+            out['cap'] = {s: int(any(x > 0 for x in srv.init_capacity)) for s, srv in m.servers.items()}
+        return out
 
     def project(self, m=None):
         m = m or self.master
@@ -664,7 +708,8 @@ def replay(scn, history):
     w = World(scn)
     lines = []
     try:
-        lines.append(dict(ev='Init', args=[], store=w.project_store(), model=w.project(),
+        lines.append(dict(ev='Init', args=[], **(dict(obs=w.project_lag()) if scn.get('lag') else {}),
+                          store=w.project_store(), model=w.project(),
                           loaded=w.loaded, clock=relms(w.v.time()), post=project_sched(w),
                           spells=dict(w.spells)))
         expanded = []
@@ -687,6 +732,9 @@ def replay(scn, history):
                 w.master = None
             line['store'] = w.project_store()
             line['model'] = w.project()
+            if scn.get('lag'):
+                line['obs'] = w.project_lag()
+                line['order'] = list(getattr(w, 'order', []))
             line['clock'] = relms(w.v.time())
             post = project_sched(w) if 'exc' not in line else None
             if post is not None:
